@@ -64,6 +64,63 @@ PROPS['C05'] = dict(
     level_text='Bounded symbolic model checking over programs: each enumerated expression tree is a distinct template instantiation of the real operator classes; it is applied to a spline with symbolic coefficients on a symbolic grid and compared on every interval at a symbolic x with a 40-line reference interpreter working on origin-basis polynomials.',
     level_note='Exact real arithmetic; trees, orders and windows enumerated to the bound (quick: seeded subset of the two-level trees); trusted: g++, libz3, sym.h/harness.h, gen_exprs.py reference interpreter.')
 
+_FORM_FUNCS = ['BilinearForm::evaluate', 'BilinearForm::operator()', 'BilinearForm::evaluateInterval', 'BilinearForm deduction guides', 'ScalarProduct', 'LinearForm::evaluate',
+               'LinearForm::operator()', 'LinearForm::evaluateInterval', 'Support::calcIntersection', 'Support::intervalIndexFromAbsolute', 'Support::absoluteFromRelative',
+               'Support::operator[]', 'operator transforms (Identity, Dx<n>, X<n>, SplineOperator, sums, products, scalar multiples)']
+PROPS['C06'] = dict(
+    engine='A', technique='symbolic-scalar execution of the real form templates + QF_NRA obligations against antiderivative-at-both-ends integrals, exact-rational replay',
+    generated=[dict(mode='c06', ntu=14, template=dict(
+        defs=dict(quick=['-DMAXN=4', '-DMAXO=3', '-DFO=1'], thorough=['-DMAXN=5', '-DMAXO=4', '-DFO=1', '-DALL_FACTOR_WINDOWS']),
+        functions=_FORM_FUNCS))],
+    bounds=dict(quick='14 operator pairs over {I, Dx<1>, Dx<2>, X<1>, X<2>, SplineOperator(v), X<2>Dx<1>+c X<1>-3, -Dx<2>/2, v*Dx<1>, c-X<1>} (position-dependent operators in both slots); order pairs {0..3}^2 (all four size parities of the kernel); every ordered window pair on grids of 2..4 symbolic points; factor windows {whole, empty, [0,2), [1,n)}',
+                thorough='68 operator pairs, order pairs {0..4}^2, grids of 2..5 points, every factor window'),
+    outside='operator pairs and orders beyond the bound; floating-point rounding (C16)',
+    assumptions=['grid points strictly increasing reals', 'T-typed divisor non-zero', 'exact real arithmetic (sym::Real), not IEEE'],
+    trusted=A_TRUST + ['symt/gen/gen_exprs.py (reference interpreter)'],
+    level_text='Bounded symbolic model checking: the real BilinearForm is evaluated on splines with symbolic coefficients on a symbolic grid for every placement of the two supports; the result must equal the sum over common intervals of the integral of the product of the two transformed pieces, integrated by the harness via the antiderivative at both interval ends (no even/odd shortcut). Swap symmetry and linearity are separate obligations on the real code.',
+    level_note='Exact real arithmetic; operator pairs, orders and windows enumerated to the bound; trusted: g++, libz3, sym.h/harness.h, reference interpreter.')
+PROPS['C07'] = dict(
+    engine='A', technique='symbolic-scalar execution of the real form templates + QF_NRA obligations against antiderivative-at-both-ends integrals, exact-rational replay',
+    generated=[dict(mode='c07', ntu=16, template=dict(
+        defs=dict(quick=['-DMAXN=4', '-DMAXO=3', '-DFO=1'], thorough=['-DMAXN=5', '-DMAXO=4', '-DFO=1']),
+        functions=_FORM_FUNCS + ['Spline::operator*(Spline)', 'operator*(Operator,Spline)']))],
+    bounds=dict(quick='linear forms of 10 operators on splines of order 0..4 (both parities of the kernel), every window and every factor window on grids of 2..4 symbolic points; bilinear = LinearForm{}((O1 a)*(O2 b)) for 14 operator pairs, order pairs {0..3}^2, every ordered window pair',
+                thorough='orders 0..5, 68 operator pairs, grids of 2..5 points'),
+    outside='operators and orders beyond the bound; floating-point rounding (C16)',
+    assumptions=['grid points strictly increasing reals', 'T-typed divisor non-zero', 'exact real arithmetic (sym::Real), not IEEE'],
+    trusted=A_TRUST + ['symt/gen/gen_exprs.py (reference interpreter)'],
+    level_text='Bounded symbolic model checking: the real LinearForm on symbolic splines must equal the sum over the support of the integral of the transformed piece (antiderivative at both ends, origin basis); the link to the bilinear form is checked between two real code paths (BilinearForm vs LinearForm of the library product).',
+    level_note='Exact real arithmetic; operators, orders and windows enumerated to the bound; trusted: g++, libz3, sym.h/harness.h, reference interpreter.')
+
+PROPS['C01'] = dict(
+    engine='A', technique='symbolic-scalar execution of the real generator (T = z3 real terms, all knots symbolic) + QF_NRA obligations against the Cox-de Boor recursion at a symbolic x, exact-rational replay',
+    harnesses=[dict(name='C01_generator', src='C01_generator.cpp', chunk=1,
+                    defs=dict(quick=['-DMAXP=3', '-DEXTRA=4'], thorough=['-DMAXP=5', '-DEXTRA=4', '-DSMOOTHNESS']),
+                    functions=['BSplineGenerator(knots)', 'BSplineGenerator(knots, grid)', 'BSplineGenerator::generateGrid', 'BSplineGenerator::generateBSplines<p>',
+                               'BSplineGenerator::generateZerothOrderSplines', 'BSplineGenerator::applyRecursionRelation<k>', 'generateBSplines<p>(knots)', 'Grid::Grid', 'Grid::findElement',
+                               'Position<1>::transform', 'ScalarMultiplication::transform', 'OperatorSum::transform', 'Spline::operator+=', 'Spline::operator=(lower order)', 'Spline::operator=='])],
+    bounds=dict(quick='orders p = 0..3; knot vectors of m = 2..p+4 knots; EVERY multiplicity pattern (all compositions of m with >= 2 parts: simple, interior and boundary repeats up to and beyond p+1); all knot values symbolic (any positive spacings, any offset); both construction routes and the free function; m < p+1 must throw, m = p+1 gives zero functions',
+                thorough='orders p = 0..5, m <= p+4 (up to 9 knots, 255 patterns), plus explicit C^{p-mu} derivative-continuity obligations at every interior knot'),
+    outside='p >= 6 (the examples use 10), knot vectors longer than p+4, floating-point rounding (C16)',
+    assumptions=['knots non-decreasing with at least two distinct values (distinct values strictly increasing reals)', 'exact real arithmetic (sym::Real), not IEEE'],
+    trusted=A_TRUST,
+    level_text='Bounded symbolic model checking of the real generator: for each order and knot count inside the bound every multiplicity pattern is a case whose distinct knot values are free reals; each returned function is compared on every grid interval, at a symbolic x, with the Cox-de Boor recursion written directly over the knots; count, local support, partition of unity, both construction routes are separate obligations.',
+    level_note='Exact real arithmetic; order, knot count and multiplicity pattern enumerated exhaustively to the bound, values symbolic; trusted: g++, libz3, sym.h/harness.h, the recursion oracle in C01_generator.cpp.')
+
+PROPS['C15'] = dict(
+    engine='A', technique='symbolic-scalar execution of the real predicates (branches on coefficient/grid comparisons forked by the solver) + QF_NRA obligations, exact-rational replay',
+    harnesses=[dict(name='C15_predicates', src='C15_predicates.cpp',
+                    defs=dict(quick=['-DMAXN=4', '-DMAXO=2'], thorough=['-DMAXN=5', '-DMAXO=3']),
+                    functions=['Spline::isZero', 'Spline::checkOverlap', 'Spline::operator==', 'Spline::operator!=', 'Support::operator==', 'Support::hasSameGrid',
+                               'Support::containsIntervals', 'Support::front', 'Support::back', 'Grid::operator== (pointer and element-wise paths)', 'std::vector<std::array<T,N>>::operator=='])],
+    bounds=dict(quick='orders 0..2; every window (isZero) and every ordered window pair (==, checkOverlap) on grids of 2..4 (overlap: 2..5) symbolic points; grids shared, equal-but-distinct, and independent symbolic second grid (sizes 2..3); which coefficients vanish/agree is decided by solver forking',
+                thorough='orders 0..3, grids of 2..5 (6) points'),
+    outside='NaN coefficients (reflexivity of == is stated over reals); orders/grids above the bound',
+    assumptions=['grid points strictly increasing reals', 'coefficients real (no NaN)'],
+    trusted=A_TRUST,
+    level_text='Bounded symbolic model checking: each predicate is run on symbolic coefficients; every feasible outcome path (first non-zero coefficient at any position, first differing coefficient or grid point at any position) is followed and the returned truth value is proved equivalent to the specification under the path condition.',
+    level_note='Exact reals; windows, orders, grid size enumerated to the bound; trusted: g++, libz3, sym.h/harness.h, oracle in C15_predicates.cpp.')
+
 _NOT_BUILT = 'check not built yet in this round (planned, see DESIGN.md section 5)'
 NOT_APPLICABLE = {
     'C16': 'floating-point forward-error bound: bit-precise FP or (1+delta) NRA encodings of even the smallest instance return unknown/timeout on every installed solver (DESIGN.md section 7)',
